@@ -20,6 +20,7 @@ type genRns struct {
 	nb      int
 	traders []int
 	names   []string
+	future  map[int][]Step // steps scheduled for a later block of this run
 }
 
 var rnsNamePool = []string{"a.jkl", "bb.jkl", "ccc.ibc", "dddd.jkl", "eeeee.jkl", "Ffffff.JKL", "long-name.ibc", "x.ibc", "MiXed.jkl", "seven77.jkl",
@@ -75,6 +76,24 @@ func (g *genRns) Block(w *World, b int) Block {
 	blk := Block{DtNs: pickDt(rng, false)}
 	var steps []Step
 	add := func(ops ...Op) { steps = append(steps, txStep(ops...)) }
+	if g.future == nil {
+		g.future = map[int][]Step{}
+	}
+	steps = append(steps, g.future[b]...)
+	delete(g.future, b)
+	if rng.Chance(1, 12) {
+		// somebody registers (and pays for) exactly the free name Init will hand out a few blocks
+		// from now; another account then calls Init in that block
+		ahead := 1 + rng.Intn(5)
+		hf := w.height + 1 + int64(ahead)
+		free := rnstypes.MakeName(int(hf), hf) + ".jkl"
+		a, bb := g.traders[rng.Intn(len(g.traders))], g.traders[rng.Intn(len(g.traders))]
+		steps = append(steps, txStep(mkOp("rns_register", a).withS("name", free).withN("years", 1)))
+		if rng.Chance(1, 2) {
+			steps = append(steps, txStep(mkOp("rns_addrecord", a).withS("name", free).withS("record", "www").withN("value", int64(bb))))
+		}
+		g.future[b+ahead] = append(g.future[b+ahead], txStep(mkOp("rns_init", bb)))
+	}
 	k := rng.Intn(4)
 	if b < 4 {
 		k += 2
@@ -110,7 +129,12 @@ func (g *genRns) Block(w *World, b int) Block {
 		case 1:
 			add(mkOp("rns_register_old", actor).withS("name", n).withN("years", rng.Pick64(1, 2)))
 		case 2:
-			add(mkOp("rns_update", actor).withS("name", n).withS("data", fmt.Sprintf(`{"v":%d}`, rng.Intn(100))))
+			un := n
+			if rng.Chance(1, 4) {
+				un = rng.PickS("www", "mail", "x") + "." + n // a record path instead of a name
+				actor = t
+			}
+			add(mkOp("rns_update", actor).withS("name", un).withS("data", fmt.Sprintf(`{"v":%d}`, rng.Intn(100))))
 		case 3:
 			dn := denom
 			if rng.Chance(1, 4) {
